@@ -47,10 +47,10 @@ func init() {
 	register("C14", propInfo{
 		Explanation: "Static decision of the structural clauses of C14 (permessage-deflate negotiation): acceptDeflate and verifyServerExtensions are extracted as total tables over all parameter strings (equivalence classes induced by the constants the code and the oracle compare with); the rendering, the fallback loop, the identity of the negotiated options stored on both ends and the per-direction takeover selection are checked against RFC 7692 §7.",
 		Decides: []string{
-			"C14.server: per offered parameter: client_/server_no_context_takeover set the respective flag; client_max_window_bits[=N] and server_max_window_bits=15 accepted without effect; every other string declines the offer",
+			"C14.server: per offered parameter: client_/server_no_context_takeover set the respective flag; client_max_window_bits, client_max_window_bits=N with N a decimal 8..15 without leading zeros, and server_max_window_bits=15 accepted without effect; every other string declines the offer",
 			"C14.fallback: disabled mode ↦ no compression before any offer is looked at; only permessage-deflate offers are considered; a declined offer falls through to the next; exhaustion ↦ none",
 			"C14.render: String() emits client_no_context_takeover ⇔ client flag, server_no_context_takeover ⇔ server flag and no other parameter",
-			"C14.client: response without extension ↦ none; other extension, more than one, or none offered ↦ error; parameters OR the two flags into a copy of the offer, tolerate server_max_window_bits=…, reject anything else",
+			"C14.client: response without extension ↦ none; other extension, more than one, or none offered ↦ error; parameters OR the two flags into a copy of the offer, tolerate server_max_window_bits=N with N a decimal 8..15, reject anything else",
 			"C14.same: the options selected are the ones rendered into the response and stored in the Conn (server) / verified and stored (client)",
 			"C14.side: reader/client uses ¬serverNoContextTakeover, reader/server ¬clientNoContextTakeover, writer/client ¬clientNoContextTakeover, writer/server ¬serverNoContextTakeover",
 			"C14.use: Conn.copts is written only by newConn; flate() ≡ copts != nil",
@@ -108,10 +108,11 @@ func c11verify(p *Program, r *Report, rule string) {
 		`headerContainsTokenIgnoreCase(Request.Header,"Connection","Upgrade")=true`,
 		`headerContainsTokenIgnoreCase(Request.Header,"Upgrade","websocket")=true`,
 		`(Request.Method == "GET")=true`,
-		`((http.Header).Get(Request.Header,"Sec-WebSocket-Version") == "13")=true`,
-		`((*base64.Encoding).DecodeString(G:base64.StdEncoding,strings.TrimSpace(elem((http.Header).Values(Request.Header,"Sec-WebSocket-Key"))[0]))#1 == nil)=true`,
+		`(len((http.Header).Values(Request.Header,"Sec-WebSocket-Version")) == 1)=true`,
+		`(elem((http.Header).Values(Request.Header,"Sec-WebSocket-Version"))[0] == "13")=true`,
+		`((*base64.Encoding).DecodeString(G:base64.StdEncoding,`+trimFn+`(elem((http.Header).Values(Request.Header,"Sec-WebSocket-Key"))[0]))#1 == nil)=true`,
 	}
-	nKeys := "len(call:(http.Header).Values)"
+	nKeys := `len(call:(http.Header).Values["Sec-WebSocket-Key"])`
 	nDec := "len(call:(*base64.Encoding).DecodeString#0)"
 	lens := candidates(intConstsCompared(fn), 0, 1, 2, 16)
 	var keyCounts, decLens []int64
@@ -123,7 +124,7 @@ func c11verify(p *Program, r *Report, rule string) {
 			decLens = append(decLens, l)
 		}
 	}
-	inl := p.inlineAllExcept("headerContainsTokenIgnoreCase", "headerTokens")
+	inl := p.inlineAllExcept("headerContainsTokenIgnoreCase", "headerTokens", trimFn, foldFn)
 	forEachValuation([]Atom{intAtom(nKeys, keyCounts), intAtom(nDec, decLens)}, func(v Valuation) {
 		vs := fmt.Sprintf("keys=%d decodedLen=%d", v.Int(nKeys), v.Int(nDec))
 		succ, other, ok := exploreClasses(p, r, rule, fn, Opts{Val: v, Inline: inl}, func(pa *Path) bool {
@@ -453,7 +454,7 @@ func c11sub(p *Program, r *Report, rule string) {
 				return false, "client tokens not taken from Sec-WebSocket-Protocol"
 			}
 			cps := ht[0].Res.Key()
-			eqs := pa.Calls("strings.EqualFold")
+			eqs := pa.Calls(foldFn)
 			for i, e := range eqs {
 				a0, a1 := argKey(e, 0), argKey(e, 1)
 				if !strings.HasPrefix(a0, "elem(param:subprotocols)[") || !strings.HasPrefix(a1, "elem("+cps+")[") {
@@ -809,12 +810,16 @@ func c13verify(p *Program, r *Report, rule string) {
 		`(Response.StatusCode == 101)=true`,
 		`headerContainsTokenIgnoreCase(Response.Header,"Connection","Upgrade")=true`,
 		`headerContainsTokenIgnoreCase(Response.Header,"Upgrade","WebSocket")=true`,
-		`((http.Header).Get(Response.Header,"Sec-WebSocket-Accept") == secWebSocketAccept(param:secWebSocketKey))=true`,
+		`(len((http.Header).Values(Response.Header,"Sec-WebSocket-Accept")) == 1)=true`,
+		`(secWebSocketAccept(param:secWebSocketKey) == elem((http.Header).Values(Response.Header,"Sec-WebSocket-Accept"))[0])=true`,
 	}
-	const proto = `(http.Header).Get(Response.Header,"Sec-WebSocket-Protocol")`
+	const protos = `(http.Header).Values(Response.Header,"Sec-WebSocket-Protocol")`
+	const proto = `elem(` + protos + `)[0]`
+	one := []string{`(len(` + protos + `) == 0)=false`, `(len(` + protos + `) > 1)=false`}
 	allowed := [][]string{
-		append(append([]string{}, base...), `(`+proto+` == "")=true`),
-		append(append([]string{}, base...), `(`+proto+` == "")=false`, `(len(DialOptions.Subprotocols) > 0)=true`, `strings.EqualFold(elem(DialOptions.Subprotocols)[0],`+proto+`)=true`),
+		append(append([]string{}, base...), `(len(`+protos+`) == 0)=true`),
+		append(append(append([]string{}, base...), one...), `(`+proto+` == "")=true`),
+		append(append(append([]string{}, base...), one...), `(`+proto+` == "")=false`, `(len(DialOptions.Subprotocols) > 0)=true`, foldFn+`(elem(DialOptions.Subprotocols)[0],`+proto+`)=true`),
 	}
 	seen := map[int]bool{}
 	for _, s := range succ {
@@ -831,9 +836,9 @@ func c13verify(p *Program, r *Report, rule string) {
 			matched = false
 		}
 		r.Check(rule, "verifyServerResponse", "accept: "+strings.Join(s.Facts, " ∧ "), pos, matched,
-			"a response is accepted only with status 101, Connection∋Upgrade, Upgrade∋WebSocket, Sec-WebSocket-Accept == secWebSocketAccept(key sent), subprotocol empty or EqualFold one requested, and then verifyServerExtensions(copts, header) decides", "facts: "+strings.Join(s.Facts, " ∧ "))
+			"a response is accepted only with status 101, Connection∋Upgrade, Upgrade∋WebSocket, exactly one Sec-WebSocket-Accept line equal to secWebSocketAccept(key sent), no or exactly one Sec-WebSocket-Protocol line that is empty or ASCII-case-insensitively equal to a requested one, and then verifyServerExtensions(copts, header) decides", "facts: "+strings.Join(s.Facts, " ∧ "))
 	}
-	r.Check(rule, "verifyServerResponse", "both accept rows present", pos, len(seen) == 2, "the two accept rows (no subprotocol / requested subprotocol) exist", fmt.Sprintf("%d of 2 among %d", len(seen), len(succ)))
+	r.Check(rule, "verifyServerResponse", "all accept rows present", pos, len(seen) == 3, "the three accept rows (no subprotocol line / one empty line / one requested subprotocol) exist", fmt.Sprintf("%d of 3 among %d", len(seen), len(succ)))
 	for _, pa := range other {
 		if pa.End == "return" && nilness(pa.Ret[1], pa) != 1 {
 			r.Check(rule, "verifyServerResponse", "refusal returns an error", pos, false, "every other path returns a non-nil error", pa.Ret[1].Key())
@@ -850,7 +855,8 @@ func c13verify(p *Program, r *Report, rule string) {
 
 func runC14(p *Program, r *Report) {
 	c14server(p, r, "C14.server")
-	cWindowBits(p, r, "C14.bits", []string{"acceptDeflate", "verifyServerExtensions"})
+	cWindowBits(p, r, "C14.bits")
+	c14dup(p, r, "C14.dup")
 	c14fallback(p, r, "C14.fallback")
 	c14render(p, r, "C14.render")
 	c14client(p, r, "C14.client")
@@ -900,6 +906,20 @@ func runC14(p *Program, r *Report) {
 	}
 }
 
+// windowBitsValues: every well-formed value of a *_max_window_bits parameter (RFC 7692 §7.1.2: a decimal integer 8..15
+// without leading zeros) and malformed neighbours of each kind (out of range, leading zero or sign, not a number, empty,
+// white space, trailing text).
+var windowBitsValues = []string{"8", "9", "10", "11", "12", "13", "14", "15",
+	"", "0", "1", "7", "16", "17", "20", "80", "99", "100", "150", "08", "015", "+9", "-9", "9 ", " 9", "9x", "x", "abc", "1 5", "0x9", "15.0", "８"}
+
+func validWindowBitsOracle(v string) bool {
+	switch v {
+	case "8", "9", "10", "11", "12", "13", "14", "15":
+		return true
+	}
+	return false
+}
+
 // paramStrings: representatives of every equivalence class of parameter strings induced by the
 // constants the function compares with and the oracle's own constants.
 func paramStrings(fn *ssa.Function) []string {
@@ -930,10 +950,20 @@ func paramStrings(fn *ssa.Function) []string {
 		"permessage-deflate", "client_no_context_takeoverx", " server_no_context_takeover"} {
 		set[s] = true
 	}
+	for _, side := range []string{"client", "server"} {
+		for _, v := range windowBitsValues {
+			set[side+"_max_window_bits="+v] = true
+		}
+	}
 	return sortedKeys(set)
 }
 
 func c14server(p *Program, r *Report, rule string) {
+	c14serverTable(p, r, rule, nil)
+}
+
+// c14serverTable: the per-parameter table of acceptDeflate; only == nil: all representative strings, else the selected ones.
+func c14serverTable(p *Program, r *Report, rule string, only func(string) bool) {
 	fn := p.Func("acceptDeflate")
 	if fn == nil {
 		return
@@ -949,13 +979,17 @@ func c14server(p *Program, r *Report, rule string) {
 	}
 	elem0 := "elem(" + subj + ")[0]"
 	var atoms []Atom
-	atoms = append(atoms, strAtom(elem0, paramStrings(fn)...))
+	atoms = append(atoms, strAtom(elem0, selectStrings(paramStrings(fn), only)...))
 	p.runTable(r, tableSpec{
-		Rule: rule, Fn: fn, Atoms: atoms, Unroll: 1,
+		Rule: rule, Fn: fn, Atoms: atoms, Unroll: 1, Inline: p.inlineSet("validWindowBits"),
 		Decide: func(v Valuation) func(string, AV) (bool, bool) {
 			return func(key string, cond AV) (bool, bool) {
 				if key == "(len("+subj+") > 0)" {
 					return true, true
+				}
+				// a single parameter has no duplicate (C14.dup decides the duplicate test itself)
+				if stripSites(key) == "call:duplicateParam" || strings.HasPrefix(stripSites(key), "duplicateParam(") {
+					return false, true
 				}
 				return false, false
 			}
@@ -990,13 +1024,17 @@ func c14server(p *Program, r *Report, rule string) {
 				return []string{"ACCEPT clientNoContextTakeover=true"}
 			case s == "server_no_context_takeover":
 				return []string{"ACCEPT serverNoContextTakeover=true"}
-			case s == "client_max_window_bits", s == "server_max_window_bits=15", strings.HasPrefix(s, "client_max_window_bits="):
+			case s == "client_max_window_bits", s == "server_max_window_bits=15",
+				strings.HasPrefix(s, "client_max_window_bits=") && validWindowBitsOracle(strings.TrimPrefix(s, "client_max_window_bits=")):
 				return []string{"ACCEPT-NO-EFFECT"}
 			}
 			return []string{"DECLINE"}
 		},
 		What: "RFC 7692 §7.1 as restated by C14: what the server does with one offered permessage-deflate parameter",
 	})
+	if only != nil {
+		return
+	}
 	// the start value and the result: copts = mode.opts(), returned with true after the loop
 	p.forAllPaths(r, rule+".result", fn, "start value and result", Opts{}, "acceptDeflate starts from mode.opts() and returns that same object with true once all parameters were accepted", func(pa *Path) (bool, string) {
 		if pa.End != "return" {
@@ -1117,13 +1155,51 @@ func c14render(p *Program, r *Report, rule string) {
 }
 
 func c14client(p *Program, r *Report, rule string) {
+	c14clientTable(p, r, rule, nil)
+}
+
+func selectStrings(all []string, only func(string) bool) []string {
+	if only == nil {
+		return all
+	}
+	var out []string
+	for _, s := range all {
+		if only(s) {
+			out = append(out, s)
+		}
+	}
+	return out
+}
+
+// noDuplicate decides the duplicate test of a parameter list with at most one element.
+func noDuplicate(key string) bool {
+	k := stripSites(key)
+	return k == "call:duplicateParam" || strings.HasPrefix(k, "duplicateParam(")
+}
+
+func c14clientTable(p *Program, r *Report, rule string, only func(string) bool) {
 	fn := p.Func("verifyServerExtensions")
 	if fn == nil {
 		return
 	}
+	if only == nil {
+		c14clientHead(p, r, rule, fn)
+	}
+	c14clientParam(p, r, rule, fn, only)
+}
+
+func c14clientHead(p *Program, r *Report, rule string, fn *ssa.Function) {
 	// head: number of extensions, name, copts
 	p.runTable(r, tableSpec{
 		Rule: rule + ".head", Fn: fn, Unroll: 1,
+		Decide: func(v Valuation) func(string, AV) (bool, bool) {
+			return func(key string, cond AV) (bool, bool) {
+				if noDuplicate(key) {
+					return false, true
+				}
+				return false, false
+			}
+		},
 		Atoms: []Atom{intAtom("len(call:websocketExtensions)", []int64{0, 1, 2, 3}), strAtom("elem(call:websocketExtensions)[0].name", "permessage-deflate", "permessage-deflate ", "x-webkit-deflate-frame", "", "PERMESSAGE-DEFLATE"), nilAtom("param:copts"),
 			intAtom("len(elem(call:websocketExtensions)[0].params)", []int64{0})},
 		Classify: func(v Valuation, pa *Path) string {
@@ -1157,12 +1233,21 @@ func c14client(p *Program, r *Report, rule string) {
 		},
 		What: "client side: no extension ↦ no compression; any extension other than a single permessage-deflate, or one the client did not offer, is an error; otherwise a copy of the offer is refined",
 	})
+}
+
+func c14clientParam(p *Program, r *Report, rule string, fn *ssa.Function, only func(string) bool) {
+	if only == nil {
+		rule += ".param"
+	}
 	// per parameter
 	p.runTable(r, tableSpec{
-		Rule: rule + ".param", Fn: fn, Unroll: 1,
-		Atoms: []Atom{strAtom("elem(elem(call:websocketExtensions)[0].params)[0]", paramStrings(fn)...)},
+		Rule: rule, Fn: fn, Unroll: 1, Inline: p.inlineSet("validWindowBits"),
+		Atoms: []Atom{strAtom("elem(elem(call:websocketExtensions)[0].params)[0]", selectStrings(paramStrings(fn), only)...)},
 		Decide: func(v Valuation) func(string, AV) (bool, bool) {
 			return func(key string, cond AV) (bool, bool) {
+				if noDuplicate(key) {
+					return false, true
+				}
 				switch stripSites(key) {
 				case "(len(call:websocketExtensions) == 0)", "(len(call:websocketExtensions) > 1)", "(param:copts == nil)":
 					return false, true
@@ -1203,12 +1288,12 @@ func c14client(p *Program, r *Report, rule string) {
 				return []string{"ACCEPT server=false client=true"}
 			case s == "server_no_context_takeover":
 				return []string{"ACCEPT server=true client=offer"}
-			case strings.HasPrefix(s, "server_max_window_bits="):
+			case strings.HasPrefix(s, "server_max_window_bits=") && validWindowBitsOracle(strings.TrimPrefix(s, "server_max_window_bits=")):
 				return []string{"ACCEPT server=false client=offer"}
 			}
 			return []string{"ERROR"}
 		},
-		What: "RFC 7692 §7.1: what the client holds after one parameter of the server's response: server_no_context_takeover exactly as the response says (the copy of the offer is cleared first), client_no_context_takeover set by the response or kept as offered; window bits have no effect; anything else (incl. client_max_window_bits, never offered) is an error",
+		What: "RFC 7692 §7.1: what the client holds after one parameter of the server's response: server_no_context_takeover exactly as the response says (the copy of the offer is cleared first), client_no_context_takeover set by the response or kept as offered; a well-formed window-bits value (8..15) has no effect; anything else (incl. client_max_window_bits, never offered) is an error",
 	})
 }
 
@@ -1376,7 +1461,7 @@ func c14use(p *Program, r *Report, rule string) {
 func cTokens(p *Program, r *Report, rule string) {
 	if fn := p.Func("headerTokens"); fn != nil {
 		p.forAllPaths(r, rule, fn, "comma-separated, trimmed tokens of all header lines", Opts{Unroll: 2},
-			"headerTokens canonicalises the key, ranges over every value of h[key], splits each on \",\" and appends every TrimSpace'd piece",
+			"headerTokens canonicalises the key, ranges over every value of h[key], splits each on \",\" and appends every piece trimmed of SP/HTAB (trimOWS)",
 			func(pa *Path) (bool, string) {
 				// all lines of the header under its canonical key: h[CanonicalMIMEHeaderKey(key)] or h.Values(key), which does the same
 				ck := pa.Calls("textproto.CanonicalMIMEHeaderKey")
@@ -1402,7 +1487,7 @@ func cTokens(p *Program, r *Report, rule string) {
 				}
 				for _, ap := range pa.Calls("builtin append") {
 					va := varargsOf(pa, ap)
-					if len(va) != 1 || !strings.HasPrefix(expandCalls(pa, va[0].Key()), "strings.TrimSpace(elem(strings.Split(") {
+					if len(va) != 1 || !strings.HasPrefix(expandCalls(pa, va[0].Key()), trimFn+"(elem(strings.Split(") {
 						return false, "appends " + func() string {
 							if len(va) > 0 {
 								return expandCalls(pa, va[0].Key())
@@ -1416,13 +1501,13 @@ func cTokens(p *Program, r *Report, rule string) {
 	}
 	if fn := p.Func("headerContainsTokenIgnoreCase"); fn != nil {
 		p.forAllPaths(r, rule, fn, "case-insensitive token membership", Opts{Unroll: 2},
-			"headerContainsTokenIgnoreCase returns true exactly when some token of headerTokens(h, key) is EqualFold to the wanted token, false after exhausting them",
+			"headerContainsTokenIgnoreCase returns true exactly when some token of headerTokens(h, key) is equal to the wanted token under ASCII case folding (asciiEqualFold), false after exhausting them",
 			func(pa *Path) (bool, string) {
 				ht := pa.Calls("headerTokens")
 				if len(ht) != 1 || argKey(ht[0], 0) != "param:h" || argKey(ht[0], 1) != "param:key" {
 					return false, "tokens not taken from headerTokens(h, key)"
 				}
-				eqs := pa.Calls("strings.EqualFold")
+				eqs := pa.Calls(foldFn)
 				for _, e := range eqs {
 					if !strings.HasPrefix(argKey(e, 0), "elem("+ht[0].Res.Key()+")[") || argKey(e, 1) != "param:token" {
 						return false, "compares " + argKey(e, 0) + " with " + argKey(e, 1)
@@ -1474,7 +1559,7 @@ func c14parse(p *Program, r *Report, rule string) {
 			for _, e := range pa.Events {
 				if e.Kind == "store" && strings.HasSuffix(e.AddrK, ".name") {
 					n := expandCalls(pa, e.Val.Key())
-					if !(strings.HasPrefix(n, "elem(strings.Split(") || strings.HasPrefix(n, "strings.TrimSpace(elem(strings.Split(")) || !strings.Contains(n, ")[0]") {
+					if !(strings.HasPrefix(n, "elem(strings.Split(") || strings.HasPrefix(n, trimFn+"(elem(strings.Split(")) || !strings.Contains(n, ")[0]") {
 						return false, "name = " + n
 					}
 				}
@@ -1484,7 +1569,7 @@ func c14parse(p *Program, r *Report, rule string) {
 						return false, "params = " + e.Val.Key()
 					}
 				}
-				if e.Kind == "store" && strings.HasPrefix(e.AddrK, "elem(call:strings.Split") && !keyIs(e.Val, "call:strings.TrimSpace@@") {
+				if e.Kind == "store" && strings.HasPrefix(e.AddrK, "elem(call:strings.Split") && !keyIs(e.Val, "call:"+trimFn+"@@") {
 					return false, "piece not trimmed: " + e.Val.Key()
 				}
 			}
